@@ -377,10 +377,10 @@ func freshSliceArg(c *Ctx, v ssa.Value) (bool, string) {
 	why := "built by " + fname(g) + " for this call"
 	ir.EachInstr(g, func(_ *ssa.BasicBlock, _ int, in ssa.Instruction) {
 		r, isRet := in.(*ssa.Return)
-		if !isRet || len(r.Results) == 0 {
+		if !isRet || len(ir.Results(r)) == 0 {
 			return
 		}
-		if !sliceMadeHere(unspill(r.Results[0]), 0) {
+		if !sliceMadeHere(unspill(ir.Results(r)[0]), 0) {
 			ok = false
 			why = fname(g) + " returns a slice it did not create in this call (shared snapshot)"
 		}
